@@ -133,6 +133,21 @@ fn eq_true(a: &Val, b: &Val) -> bool {
     }
 }
 
+/// the same number in the other numeric type, when it exists exactly
+fn twin(v: &Val) -> Option<Val> {
+    match v {
+        Val::Int(i) => {
+            let f = *i as f64;
+            if (f as i128) == (*i as i128) { Some(Val::Float(f.to_bits())) } else { None }
+        }
+        Val::Float(b) => {
+            let f = f64::from_bits(*b);
+            if f.is_finite() && f.fract() == 0.0 && f >= -9.223372036854775808e18 && f < 9.223372036854775808e18 { Some(Val::Int(f as i64)) } else { None }
+        }
+        _ => None,
+    }
+}
+
 #[derive(Clone, Debug, PartialEq)]
 struct NodeM {
     first: Option<u8>,
@@ -163,8 +178,11 @@ impl Mirror {
             return None;
         }
         let ix = self.index.as_ref()?;
-        let e = v.enc();
-        let ids: Vec<u32> = ix.iter().filter(|x| x.0 == e).map(|x| x.1).collect();
+        let mut keys = vec![v.enc()];
+        if let Some(t) = twin(v) {
+            keys.push(t.enc());
+        }
+        let ids: Vec<u32> = ix.iter().filter(|x| keys.contains(&x.0)).map(|x| x.1).collect();
         if ids.is_empty() { None } else { Some(ids) }
     }
     fn seek(&self, il: u8, ik: u8, l: u8, preds: &[(u8, Val)]) -> Vec<u32> {
@@ -569,7 +587,13 @@ fn run_history(idx: usize, cx: &mut Ctx, script: Option<Vec<Op>>, il: u8, ik: u8
                 Op::CreateIndex => {
                     pair.a.as_ref().unwrap().create_index(LABELS[il as usize], KEYS[ik as usize]).map_err(|e| format!("create_index: {e}"))?;
                     if m.index.is_none() {
-                        m.index = Some(vec![]);
+                        // create_index backfills: live nodes created with the label that carry the property
+                        m.index = Some(
+                            m.nodes.iter().enumerate()
+                                .filter(|(_, n)| !n.deleted && n.first == Some(il))
+                                .filter_map(|(i, n)| n.props.get(&ik).map(|v| (v.enc(), i as u32)))
+                                .collect(),
+                        );
                     }
                     have_index = true;
                     model_op = Some("OCreateIndex".into());
@@ -761,11 +785,10 @@ fn run_history(idx: usize, cx: &mut Ctx, script: Option<Vec<Op>>, il: u8, ik: u8
                             "K-C15-foreign"
                         } else if n.first != Some(il) {
                             "K-C15-label"
-                        } else if w.map(|w| w.kind() != preds[0].1.kind() && w.kind() >= 2 && w.kind() <= 3 && preds[0].1.kind() >= 2 && preds[0].1.kind() <= 3).unwrap_or(false) {
-                            "K-C15-numeric"
-                        } else if w.map(|w| !m.entry_present(*id, w)).unwrap_or(false) {
-                            "K-C15-backfill"
                         } else {
+                            // a lost node created with the indexed label: repaired classes (backfill,
+                            // numeric twin) or something new -- never tolerated
+                            let _ = w.map(|w| m.entry_present(*id, w));
                             "unexplained"
                         };
                         classes.insert(c);
@@ -801,14 +824,14 @@ fn run_history(idx: usize, cx: &mut Ctx, script: Option<Vec<Op>>, il: u8, ik: u8
 fn corpus() -> Vec<(u8, u8, Vec<Op>)> {
     let i = |x: i64| Val::Int(x);
     vec![
-        // K-C15-backfill (DESIGN §8): index created after data, one more insert
+        // fixed (create_index backfills; was K-C15-backfill, DESIGN §8): index created after data, one more insert
         (0, 1, vec![Op::Create(vec![0], vec![(1, i(1))]), Op::Create(vec![0], vec![(1, i(1))]), Op::CreateIndex, Op::Create(vec![0], vec![(1, i(1))])]),
         // fixed (6de4665): equal values, update away and back used to leave a duplicate entry -> duplicate row
         (0, 1, vec![Op::CreateIndex, Op::Create(vec![0], vec![(1, i(1))]), Op::Create(vec![0], vec![(1, i(1))]), Op::Create(vec![0], vec![(1, i(1))]),
                     Op::Props(0, vec![(1, i(5), false)]), Op::Props(0, vec![(1, i(1), false)])]),
         // fixed (bda887a): deleted node still returned through its index entry
         (0, 1, vec![Op::CreateIndex, Op::Create(vec![0], vec![(1, i(1))]), Op::Create(vec![0], vec![(1, i(1))]), Op::Delete(0)]),
-        // K-C15-numeric
+        // fixed (seek looks up both numeric encodings; was K-C15-numeric)
         (0, 1, vec![Op::CreateIndex, Op::Create(vec![0], vec![(1, i(1))]), Op::Create(vec![0], vec![(1, Val::Float(1.0f64.to_bits()))])]),
         // K-C15-label: second label, label added later
         (0, 1, vec![Op::CreateIndex, Op::Create(vec![0], vec![(1, i(1))]), Op::Create(vec![1, 0], vec![(1, i(1))]), Op::Create(vec![1], vec![(1, i(1))]), Op::AddLabel(2, 0)]),
